@@ -29,6 +29,8 @@ macro_rules! properties {
 
 properties! {
     "C10" => c10,
+    "C14" => c14,
+    "C18" => c18,
     "C19" => c19,
     "C20" => c20,
 }
